@@ -4,6 +4,7 @@ import (
 	"fmt"
 	"math"
 	"os"
+	"path/filepath"
 	"go/token"
 	"go/types"
 	"math/big"
@@ -39,6 +40,7 @@ func init() {
 		v + "Assert":  rtAssert,
 		v + "Note":    func(fr *frame, a []value) value { return nil },
 		v + "Symbolic": func(fr *frame, a []value) value { return true },
+		v + "MapOrder": func(fr *frame, a []value) value { E.mapOrder = int(asInt64(a[0])); return nil },
 		v + "Thorough": func(fr *frame, a []value) value { return os.Getenv("VERIF_TIER") == "thorough" },
 		v + "CaptureFile": func(fr *frame, a []value) value { var p *value; return p },
 		v + "TakeOutput": func(fr *frame, a []value) value {
@@ -143,6 +145,20 @@ func init() {
 		"internal/strconv.float32frombits":      func(fr *frame, a []value) value { return math.Float32frombits(uint32(concU64(a[0]))) },
 		"internal/strconv.float64bits":          func(fr *frame, a []value) value { return math.Float64bits(a[0].(float64)) },
 		"internal/strconv.float32bits":          func(fr *frame, a []value) value { return math.Float32bits(a[0].(float32)) },
+		"path/filepath.ToSlash":   func(fr *frame, a []value) value { return a[0] },
+		"path/filepath.FromSlash": func(fr *frame, a []value) value { return a[0] },
+		"path/filepath.Base":      nativeStr1(filepath.Base),
+		"path/filepath.Dir":       nativeStr1(filepath.Dir),
+		"path/filepath.Clean":     nativeStr1(filepath.Clean),
+		"path/filepath.Ext":       nativeStr1(filepath.Ext),
+		"path/filepath.IsAbs":     func(fr *frame, a []value) value { return filepath.IsAbs(concStr(a[0])) },
+		"path/filepath.Join": func(fr *frame, a []value) value {
+			var parts []string
+			for _, p := range a[0].([]value) {
+				parts = append(parts, concStr(p))
+			}
+			return filepath.Join(parts...)
+		},
 		"regexp.MustCompile": func(fr *frame, a []value) value { return opaque{"regexp"} },
 		"regexp.Compile":     func(fr *frame, a []value) value { return tuple{opaque{"regexp"}, iface{}} },
 
@@ -197,6 +213,18 @@ func init() {
 
 func nop(fr *frame, a []value) value { return nil }
 
+func concStr(x value) string {
+	s, ok := x.(string)
+	if !ok {
+		panic(pathUnsupported{"path operation on a symbolic string"})
+	}
+	return s
+}
+
+func nativeStr1(f func(string) string) intrinsic {
+	return func(fr *frame, a []value) value { return f(concStr(a[0])) }
+}
+
 func concU64(x value) uint64 {
 	if _, ok := x.(symv); ok {
 		panic(pathUnsupported{"float bit pattern built from symbolic data"})
@@ -236,10 +264,15 @@ func rtChoice(fr *frame, a []value) value {
 	if n <= 0 {
 		panic(pathAbort{"empty choice"})
 	}
+	if _, dup := E.decls[name]; dup && E.choiceSeen[name] {
+		panic(pathUnsupported{"choice " + name + " drawn twice on one path"})
+	}
+	E.choiceSeen[name] = true
 	x := E.Fresh(name, 32)
-	E.Assume(mk(0, "bvult", x, symv{32, bvLit(uint64(n), 32)}))
+	e := E
+	e.push(mk(0, "bvult", x, symv{32, bvLit(uint64(n), 32)}).t)
 	for k := 0; k < n-1; k++ {
-		if E.Decide(mk(0, "=", x, symv{32, bvLit(uint64(k), 32)})) {
+		if E.decideFree(mk(0, "=", x, symv{32, bvLit(uint64(k), 32)})) {
 			return k
 		}
 	}
